@@ -3,5 +3,5 @@ export VERIF_ROOT="${VERIF_ROOT:-/verif}"
 export VERIF_REPO="${VERIF_REPO:-/repo}"
 _tc=/root/go/pkg/mod/golang.org/toolchain@v0.0.1-go1.25.3.linux-amd64
 if [ -d "$_tc/bin" ]; then export PATH="$_tc/bin:$PATH"; export GOROOT="$_tc"; fi
-export GOTOOLCHAIN=local GOFLAGS=-mod=mod GOPROXY=off GOSUMDB=off GONOSUMDB=* GONOSUMCHECK=1 GOFLAGS=-mod=mod
+export GOTOOLCHAIN=local GOFLAGS=-mod=readonly GOPROXY=off GOSUMDB=off
 export CGO_ENABLED=1
